@@ -117,6 +117,21 @@ def _mk_table():
     reg("stockwell.itransform", "stockwell.itransform", lambda G: ([G.arr_stock()], {}))
     reg("stockwell.dep_itransform", "stockwell.dep_itransform", lambda G: ([G.arr_stock()], {}))
     reg("stockwell.get_max_tifq_vals_freq", "stockwell.get_max_tifq_vals_freq", lambda G: ([G.arr_stock(), G.dt()], {}))
+    reg("im._raw_calc_arias_intensity", "im._raw_calc_arias_intensity", lambda G: ([G.rec(nd_only=True), G.dt()], {}))
+    reg("sdof.absmax", "sdof.absmax", lambda G: ([G.rec(nd_only=True)], {}))
+    reg("sdof.absmax:2d", "sdof.absmax", lambda G: ([G.arr_stock()], {"axis": 1}))
+    reg("sdof.compute_a_and_b", "sdof.compute_a_and_b",
+        lambda G: ([G.xi(), {"arr": nd([round(6.2831853 / t, 6) for t in gen_periods(G.rng)])}, G.dt()], {}))
+    reg("sdof.slow_response_spectra", "sdof.slow_response_spectra",
+        lambda G: ([G.rec(nd_only=True, max_n=48), G.dt(), G.arr_periods(), [0.05]], {}))
+    reg("stockwell.transform_slow", "stockwell.transform_slow",
+        lambda G: ([G.rec(nd_only=True, max_n=64, min_n=8)], {"ith": G.rng.choice([1, 2])}))
+    reg("surface.trim_to_length", "surface.trim_to_length", lambda G: G.trim_args())
+    reg("fns.get_sig_array_indexes_range", "fns.frequency.get_sig_array_indexes_range",
+        lambda G: ([{"arr": nd([abs(v) + 0.01 for v in gen_record(G.rng, G.rng.randint(4, 40))])}], G.some({"ratio": 3})))
+    reg("fns.determine_indices_of_peaks_for_cleaned", "determine_indices_of_peaks_for_cleaned", lambda G: ([G.rec()], {}))
+    reg("fns._determine_peak_only_series_4_cleaned_data", "fns.peaks_and_crossings._determine_peak_only_series_4_cleaned_data",
+        lambda G: ([G.rec(nd_only=True)], {}))
     reg("design_spectra.c_h_factor", "design_spectra.c_h_factor",
         lambda G: ([G.arr_periods(zero=True)], G.some({"site_class": G.rng.choice(["C", "D", "E"])})))
     # ---- object level ----
@@ -196,7 +211,7 @@ class World(object):
                                                       "K2": {"armed": 0, "fired": 0, "recovered": 0},
                                                       "K4": {"armed": 0, "fired": 0, "recovered": 0}},
                       "k2_sites": {},
-                      "own_cells": set(), "pure_cells": set(), "calls": {}, "call_outcomes": {}, "kindseq": set(),
+                      "own_cells": set(), "pure_cells": set(), "calls": {}, "calls_ok": {}, "call_outcomes": {}, "kindseq": set(),
                       "nontrivial": 0, "outcomes": {}, "runs": 0, "buffer_checks": 0, "object_checks": 0,
                       "repeat_checks": 0, "later_repeat_checks": 0, "run_class": {}}
         self.kinds = []
@@ -633,6 +648,8 @@ class C05(Profile):
                                   what="%s modified its argument array #%d in place%s" % (
                                       op["f"], i, " (the call failed with an injected allocation error)" if fired else "")), fired
         agg_add(st["call_outcomes"], "ok" if out1.ok else out1.exc)
+        if out1.ok:
+            agg_add(st["calls_ok"], op["f"])
         if fired:
             return out1, None, fired       # a faulted call may fail; its result is not compared with anything
         if out1.ok and not TABLE[op["f"]]["path"].startswith(("io:", "method:")):
@@ -853,6 +870,8 @@ class C05(Profile):
                               "functions_never_called": missing, "cells_hit": len(pure),
                               "definition": "function | argument kind"},
             "analysis_calls": sum(fns_called.values()),
+            "functions_that_never_returned_normally": sorted(set(fns_called) - set(agg.get("calls_ok", {}))),
+            "calls_per_function_min": min(fns_called.values()) if fns_called else 0,
             "analysis_call_outcomes": agg.get("call_outcomes", {}),
             "fault_kinds": agg.get("faults", {}),
             "k2_sites_fired": agg.get("k2_sites", {}),
@@ -1520,6 +1539,19 @@ class Gen(object):
             kw["down_red"] = 0.8
         tts = {"arr": nd(tt)} if (k > 1 or rng.random() < 0.7) else tt[0]
         return [{"obj": self.cur_obj}, tts], kw
+
+    def trim_args(self):
+        rng = self.rng
+        k = rng.randint(1, 3)
+        n = rng.randint(12, 40)
+        dt = self.cur_dt
+        tt = [round(rng.randint(0, 4) * dt, 6) for _ in range(k)]
+        extra = 2 * max(int(t / dt) for t in tt) + 8
+        vals = [[round(rng.gauss(0, 1), 4) for _ in range(n + extra)] for _ in range(k)]
+        kw = {"trim": rng.random() < 0.6, "start": rng.random() < 0.5}
+        if rng.random() < 0.4:
+            kw["s2s_travel_time"] = round(rng.randint(0, 3) * dt, 6)
+        return [{"arr": {"nd": "f8", "v": vals}}, n, {"arr": nd(tt)}, dt], kw
 
     def pair_args(self):
         world = self.world
